@@ -110,7 +110,7 @@ func ruleC13ParentIsDirectory(c *Ctx) {
 				"creation reachable only when the parent is a directory", "an append is reachable without passing the parent-is-directory test")
 		}
 	}
-	if n < 5 {
+	if n < half(5) {
 		c.unresolved("only %d parent lookups (inventory.Stat of filepath.Dir) found in pkg/fs (expected 5)", n)
 	}
 }
@@ -295,7 +295,7 @@ func ruleC13LiveFilter(c *Ctx) {
 			c.verdictIf(live, rule, f, construct, cs.Call.Pos(), "carries the liveness predicate deleted != 1", "this lookup does not filter tombstones (no `deleted != 1`): deleted entries would reappear in lookups or listings and disagree with each other")
 		}
 	}
-	if n < 10 {
+	if n < half(10) {
 		c.unresolved("only %d selects over headers found in pkg/persisters (expected >= 10)", n)
 	}
 }
